@@ -10,7 +10,7 @@
    C06_settles gives the continuation that reaches quiescence: together, once changes stop the run settles, up to date.
    KNOWN FINDING KF1: a change of a target's own declared input made while its script runs is absorbed by a skip; witness
    below, replayed on the real binary (defect D12). *)
-From Zinoma.Proofs Require Import SysWatch WatchKF1 SysWatchLive2 SysWatchLive3 Weights.
+From Zinoma.Proofs Require Import SysWatch WatchKF1 SysWatchLive2 SysWatchLive3 SysWatchLive4 Weights.
 From Zinoma.Model Require Import Incremental.
 
 Theorem C06_invalidation_rearms_and_propagates :
@@ -108,6 +108,24 @@ Example C06_quiescent_with_a_failure :
        LBuildDone 1%N RFailed; LRoot] = Some s /\
     (quiescent true true s && is_running s && bool_decide (hist s = [ObStart 1%N; ObFail 1%N])) = true.
 Proof. apply witness_intro. vm_compute. reflexivity. Qed.
+
+(* NO DETECTED CHANGE IS ABSORBED AT THE ENGINE LEVEL.  s1: a reachable state in which a change notice for the build or service
+   t is pending (the watcher reported a change of one of its declared inputs: `LChange`).  However the run continues from there
+   — more changes, other targets, any interleaving — if it reaches a state s2 in which nothing can happen any more, nothing is
+   failed and t is requested, then an execution of t has STARTED AFTER s1: the history of s2 is the history of s1 followed by
+   a suffix containing `ObStart t`.  (Whether that execution then really runs the script or is found `Not Modified` is the
+   incremental layer's decision: C02, and the known finding KF1 when the change fell inside t's own previous run.) *)
+Theorem C06_detected_change_is_rebuilt :
+  forall (g : graph) (roots : list tid) (w : bool) (rank : tid -> nat),
+    (forall t k deps d, g !! t = Some (k, deps) -> d ∈ deps -> is_Some (g !! d)) ->
+    (forall t k deps d, g !! t = Some (k, deps) -> d ∈ deps -> (rank d < rank t)%nat) ->
+    forall (s1 : sys) (ls : list label) (s2 : sys) (t : tid) (a2 : astate) (k : kind),
+      reachable true w g roots s1 -> t ∈ slot s1 ->
+      run_labels true w s1 ls = Some s2 ->
+      ph s2 = PRun -> quiescent true w s2 = true -> none_failed s2 ->
+      actors s2 !! t = Some a2 -> a_kind a2 <> AAggregate -> own a2 k -> reqs a2 k <> ∅ ->
+      exists h', hist s2 = hist s1 ++ h' /\ ObStart t ∈ h'.
+Proof. exact detected_change_is_rebuilt. Qed.
 
 Theorem C06_none_failedb_spec : forall s, none_failedb s = true -> none_failed s.
 Proof. exact none_failedb_spec. Qed.
